@@ -376,6 +376,20 @@ func (a *Agent) gatherCandidatesLocal(ctx context.Context, networkTypes []Networ
 					tcpType TCPType
 				)
 
+				// The enabled network types are (transport, family) combinations:
+				// udp4 together with tcp6 must not yield a udp6 or tcp4 candidate.
+				enabled := false
+				if networkType, ntErr := determineNetworkType(network, addr); ntErr == nil {
+					for _, configured := range networkTypes {
+						if configured == networkType {
+							enabled = true
+						}
+					}
+				}
+				if !enabled {
+					continue
+				}
+
 				switch network {
 				case tcp:
 					if a.tcpMux == nil {
